@@ -541,13 +541,10 @@ func init() {
 		}
 		return c.newErr("joined", ps...)
 	})
-	// validate.PathedError: path bookkeeping (regexp, errors.As) is formatting; keep the error ancestry
+	// validate.PathedError: path bookkeeping (regexp, errors.As) is formatting. The returned PathError has
+	// neither Unwrap nor Is, so errors.Is does not see through it: the result has no ancestry.
 	reg("github.com/synnaxlabs/x/validate.PathedError", func(c *Ctx, fn *ssa.Function, a []Value) Value {
-		e := a[0].(IfaceV)
-		if e.t == nil {
-			return c.newErr("pathed-nil")
-		}
-		return c.newErr("pathed", e)
+		return c.newErr("pathed")
 	})
 	// ---- fmt / strconv (opaque unless concrete) ----
 	reg("fmt.Sprintf", func(c *Ctx, fn *ssa.Function, a []Value) Value {
